@@ -27,8 +27,10 @@ pub struct Ctx {
     samples: Vec<String>,
     pub tier_thorough: bool,
     case_note: String,
-    /// first digit is strided over worker threads: (worker index, workers)
+    /// work is split over worker threads on the first one or two digits: (worker index, workers)
     stride: (usize, usize),
+    /// (start, step) of digit 0 and digit 1 for this worker, fixed when the arity of digit 0 is first seen
+    split: Option<((usize, usize), (usize, usize))>,
     abort: bool,
 }
 
@@ -46,6 +48,7 @@ impl Ctx {
             tier_thorough: thorough,
             case_note: String::new(),
             stride: (0, 1),
+            split: None,
             abort: false,
         }
     }
@@ -53,10 +56,28 @@ impl Ctx {
     /// One odometer digit with `n` alternatives (n >= 1)
     pub fn pick(&mut self, n: usize) -> usize {
         assert!(n >= 1);
+        if self.pos == 0 && self.split.is_none() {
+            let (w, jobs) = self.stride;
+            self.split = Some(if jobs <= n {
+                ((w, jobs), (0, 1))
+            } else {
+                // more workers than alternatives of the first digit: groups of workers share one value of digit 0
+                // and split digit 1 among themselves
+                let g = jobs / n;
+                if w >= g * n {
+                    ((n, n), (0, 1)) // idle worker
+                } else {
+                    ((w % n, n), (w / n, g))
+                }
+            });
+        }
+        let split = self.split.unwrap_or(((0, 1), (0, 1)));
         let mut c = if self.pos < self.prefix.len() {
             self.prefix[self.pos]
         } else if self.pos == 0 {
-            self.stride.0
+            (split.0).0
+        } else if self.pos == 1 {
+            (split.1).0
         } else {
             0
         };
@@ -244,8 +265,13 @@ pub fn drive(ob: &str, scope: &str, f: impl Fn(&mut Ctx) + Sync) {
             // advance the odometer over the digits consumed by this run (digit 0 advances by `jobs`)
             let mut d: Vec<(usize, usize)> = ctx.digits[..ctx.pos].to_vec();
             let mut next: Option<Vec<usize>> = None;
+            let split = ctx.split.unwrap_or(((0, 1), (0, 1)));
             while let Some((c, n)) = d.pop() {
-                let step = if d.is_empty() { jobs } else { 1 };
+                let step = match d.len() {
+                    0 => (split.0).1,
+                    1 => (split.1).1,
+                    _ => 1,
+                };
                 if c + step < n {
                     let mut p: Vec<usize> = d.iter().map(|x| x.0).collect();
                     p.push(c + step);
